@@ -285,7 +285,7 @@ class Gen:
             return self.decl(sc, d, ctx, force_closure=True)
         if ctx.get("in_w") and r.random() < 0.18 and not ctx.get("pure"):
             self.features.add("yield-mark")
-            return f"(print (bin add (int 0) {self.int_expr(sc, 1, ctx)}))"
+            return f"(print (bin add (int 0) (bin mul (int 1) {self.int_expr(sc, 1, ctx)})))"
         if c < 0.22:
             return self.decl(sc, d, ctx)
         if c < 0.34:
